@@ -16,7 +16,10 @@
 //
 // "H stales id.." is the price heap (entries incl. stale/duplicate ones) and the stale counter of the
 // real pool BEFORE the operation (internal bookkeeping state the model is re-synchronised with);
-// <observed> is the implementation's observable line after the operation.  The model driver uses
+// <observed> is the implementation's observable line after the operation; its last field
+// "h=stales/entries:live ids" is the price heap AFTER the operation (stale counter, number of entries,
+// the entries of indexed remote txs), which the model predicts from the re-synchronised state.
+// "R k id.." of RESET: the transactions reset() has to reinject at a reorg (old branch minus new branch).  The model driver uses
 // it only to pick the tie-break choices (heap ties / prque ties / heartbeat order) that explain the
 // outcome; it prints the model's own line, which ./check compares with impl.txt.
 package tx_pool
@@ -634,8 +637,9 @@ func (c *vCase) invariantX(s *vSnap, afterReorg bool, capped map[int]bool, limCl
 				break
 			}
 		}
-		if !gap {
-			delete(c.reinjGap, a)
+		nonceOK := len(l) == 0 || s.nonces[a] == l[len(l)-1].nonce+1
+		if !gap && nonceOK {
+			delete(c.reinjGap, a) // the account's pending run is whole again
 		}
 		for _, e := range l {
 			if e.tx.Cost().Cmp(bal) > 0 {
@@ -654,8 +658,9 @@ func (c *vCase) invariantX(s *vSnap, afterReorg bool, capped map[int]bool, limCl
 			total++
 		}
 		if len(l) > 0 && s.nonces[a] != l[len(l)-1].nonce+1 {
-			if gap && c.reinjGap[a] {
-				// follow-on of the gapped run: a later promotion run of the account ends below its last pending nonce
+			if c.reinjGap[a] {
+				// follow-on of the gapped run: a later promotion run of the account ends below its last pending
+				// nonce, or a removal inside the gapped run leaves Nonce() above what is left of it
 				o.Fail(c.step, "pending-gap-reinject", fmt.Sprintf("after_partial_reinjection follow_on=pending-nonce acct=%d Nonce()=%d last_pending=%d", a, s.nonces[a], l[len(l)-1].nonce))
 			} else {
 				o.Fail(c.step, "pending-nonce", fmt.Sprintf("acct=%d Nonce()=%d last_pending=%d", a, s.nonces[a], l[len(l)-1].nonce))
@@ -663,8 +668,14 @@ func (c *vCase) invariantX(s *vSnap, afterReorg bool, capped map[int]bool, limCl
 		}
 	}
 	for a := 1; a <= vAccts; a++ {
-		if len(s.pending[a]) == 0 && s.nonces[a] != c.stateNonce(a) {
-			o.Fail(c.step, "pending-nonce", fmt.Sprintf("acct=%d Nonce()=%d state_nonce=%d no pending", a, s.nonces[a], c.stateNonce(a)))
+		if len(s.pending[a]) == 0 {
+			if s.nonces[a] == c.stateNonce(a) {
+				delete(c.reinjGap, a)
+			} else if c.reinjGap[a] {
+				o.Fail(c.step, "pending-gap-reinject", fmt.Sprintf("after_partial_reinjection follow_on=pending-nonce acct=%d Nonce()=%d state_nonce=%d no pending", a, s.nonces[a], c.stateNonce(a)))
+			} else {
+				o.Fail(c.step, "pending-nonce", fmt.Sprintf("acct=%d Nonce()=%d state_nonce=%d no pending", a, s.nonces[a], c.stateNonce(a)))
+			}
 		}
 	}
 	qtotal := 0
@@ -1309,6 +1320,14 @@ func (c *vCase) opReset(r *vRand) {
 		// longer passes validateTx - is promoted below the still-pending higher nonces: internal gap
 		if l := post.pending[v.from]; len(l) > 0 && l[len(l)-1].nonce-l[0].nonce+1 != uint64(len(l)) {
 			c.reinjGap[v.from] = true
+		} else if v.from >= 1 && v.from <= vAccts && len(l) > 0 && post.nonces[v.from] != l[len(l)-1].nonce+1 {
+			// the same, when truncatePending has already cut the part above the gap within this reset:
+			// Nonce() still points above the hole.  Only when the account's run really came back in part.
+			for _, w := range reinject {
+				if _, in := post.all[w.id]; w.from == v.from && w.tx.Nonce() >= c.stateNonce(w.from) && !in {
+					c.reinjGap[v.from] = true
+				}
+			}
 		}
 	}
 	ids := ""
@@ -1883,7 +1902,7 @@ func TestVerifC17(t *testing.T) {
 	}
 	defer os.RemoveAll(tmp)
 	o := vOpen()
-	o.Rule = "a case is one pool history (config, fake-chain state, 10-30 operations: AddRemotesSync/AddLocals batches, head resets, SetGasPrice, lifetime expiry, journal reload); non-trivial = the history meets a replacement/pool-full/underpriced outcome or ends with both pending and queued txs; distinct by (limits, op-kind string, error string)"
+	o.Rule = "a case is one pool history (config, fake-chain state, 10-30 operations: AddRemotesSync/AddLocals batches, head resets (nil heads | extending head | reorg with reinjection), SetGasPrice, lifetime expiry, journal reload); non-trivial = the history meets a replacement/pool-full/underpriced outcome or ends with both pending and queued txs; distinct by (limits, op-kind string, error string)"
 	root := vNew(*vSeed)
 	for n := 0; n < *vN; n++ {
 		if *vOnly >= 0 && *vOnly != n {
